@@ -165,6 +165,19 @@ def check_board(ctx, mv, rw, ls, pt, pr, pl, model=None):
             ctx.violation("bisimilar", dict(inp, variant=v),
                           {"reason": "initial states not bisimilar",
                            "game_rows_of_reachable_states": {str(k): gl[k][3] for k in sorted(gl)[:12]}})
+    # the same board handed over as tuples of tuples (e.g. list(zip(*columns))), and a file named without a
+    # directory part: the games must be the same
+    if ctx.evaluations % 7 == 0 or L * W <= 2:
+        try:
+            tup = lambda m: tuple(tuple(r) for r in m)     # noqa: E731
+            g_t, _ = boards.games_of_board(tup(mv), tup(rw), tup(ls), pt, pr, pl)
+            g_l, _ = boards.games_of_board([tuple(r) for r in mv], [tuple(r) for r in rw], [tuple(r) for r in ls], pt, pr, pl, bare_name=True)
+            if g_t != games or g_l != games:
+                ctx.violation("same-board-same-games", inp, {"variant": "rows given as tuples / bare file name",
+                                                             "tuples_equal": g_t == games, "bare_name_equal": g_l == games})
+        except Exception as e:  # noqa
+            ctx.violation("same-board-same-games", inp, {"variant": "rows given as tuples / bare file name",
+                                                         "error": type(e).__name__, "msg": str(e)[:200]})
     if model is not None:
         model.add("gen", {"num": "float", "L": L, "W": W, "board": {"moves": mv, "rewards": rw, "loose": ls},
                           "ptile": fbits(pt), "probot": fbits(pr), "plight": fbits(pl)},
@@ -233,6 +246,8 @@ def run(ctx, model=None):
                 return
     ctx.extra["exhaustive_small"] = f"all arrow x loose layouts for shapes {shapes}"
     rerun_same_directory(ctx, rng)
+    boards.generator_environment(ctx, "file-independent-of-environment",
+                                 [["--seed=4", "--width=2", "--length=3"], ["--seed=9", "--width=3", "--length=2", "-f", "--prob_robot_break=0.104"]])
     big = [(3, 3), (5, 1), (1, 5), (4, 2), (6, 6), (10, 9), (2, 49), (12, 11), (21, 20)] if ctx.quick() else \
         [(3, 3), (5, 1), (1, 5), (4, 2), (6, 6), (10, 9), (2, 49), (12, 11), (10, 5), (5, 10), (40, 10), (10, 40), (30, 1),
          (1, 30), (21, 20), (3, 103), (13, 12), (2, 98), (2, 107)]
@@ -262,4 +277,11 @@ def rerun_same_directory(ctx, rng):
 
 def replay(ctx, viol):
     i = viol["input"]
+    if "argv" in i:
+        boards.generator_environment(ctx, viol["clause"], [i["argv"]])
+        return
+    if "first_run" in i:
+        rerun_same_directory(ctx, random.Random(1))
+        return
+    ctx.evaluations = 6          # so that the tuple-row / bare-name variant of check_board is exercised as well
     check_board(ctx, i["moves"], i["rewards"], i["loose"], i["pt"], i["pr"], i["pl"], None)
